@@ -12,6 +12,8 @@ NEWPOOL = ["n1", "n2", "n3", "n4"]
 TEXTS = ["", "x", "it's", 'say "hi"', "ünï©ødé ✓", "line\nbreak", "  pad ", "123", "1e3", "NULL",
          "%s;--", "a,b", "中文", "\U0001F600", "tab\there", "back\\slash", "O''Brien"]
 DEFAULTS = {"int": ["0", "7", "-1"], "str": ["'x'", "'it''s'", "''", "'a b'"], "float": ["1.5", "0.0"]}
+# defaults of columns of the *initial* table only (expressions: reflected without / with their parentheses)
+TABLE_DEFAULTS = {"int": ["(1 + 1)", "((2))"], "date": ["CURRENT_TIMESTAMP"]}
 
 
 def family(ty):
@@ -74,8 +76,8 @@ def gen_table(rng, big=False):
         else:
             ty = rng.choice(TYPE_TOKENS if rng.random() < 0.6 else INTS + STRS)
             d = None
-            if rng.random() < 0.25 and family(ty) in DEFAULTS:
-                d = rng.choice(DEFAULTS[family(ty)])
+            if rng.random() < 0.25 and (family(ty) in DEFAULTS or family(ty) in TABLE_DEFAULTS) and ty != "BOOLEAN":
+                d = rng.choice(DEFAULTS.get(family(ty), []) + TABLE_DEFAULTS.get(family(ty), []))
             cols.append({"name": n, "ty": ty, "nullable": rng.random() < 0.75, "default": d})
     for c in cols:
         c["aff"] = aff_of_token(c["ty"])
@@ -121,7 +123,9 @@ def gen_table(rng, big=False):
         rt = name if selfref else "parent"
         if any(f["cols"] == [c] and f["rtable"] == rt for f in fks):
             continue
-        fks.append({"name": None if rng.random() < 0.3 else "fk_%d" % j, "cols": [c], "rtable": rt, "rcols": ["id"]})
+        # two foreign keys may point at different columns of the same referent table (_setup_referent appends the column)
+        fks.append({"name": None if rng.random() < 0.3 else "fk_%d" % j, "cols": [c], "rtable": rt,
+                    "rcols": ["code"] if (not selfref and rng.random() < 0.4) else ["id"]})
     for j in range(rng.choice([0, 1, 1, 2])):
         k = rng.sample([c["name"] for c in cols], min(len(cols), rng.choice([1, 1, 2])))
         ix = {"name": "ix_%s_%d" % (name[:6], j), "cols": k, "unique": rng.random() < 0.2}
@@ -144,6 +148,11 @@ def gen_table(rng, big=False):
                 cn = "ck_%s_%s" % (name[:8], cname)
                 checks.append({"name": cn, "text": text, "mentions": [cname], "pred": None})
                 stypes[cname] = {"kind": kind, "const": cn}
+    # a generated column reading an integer column: g INTEGER GENERATED ALWAYS AS (<c> + 1) STORED | VIRTUAL
+    if intcols and rng.random() < 0.2:
+        src = rng.choice(intcols)
+        cols.append({"name": "g", "ty": "INTEGER", "nullable": True, "default": None, "aff": aff_of_token("INTEGER"), "dval": None,
+                     "pk": False, "computed": "%s + 1" % src, "persisted": rng.random() < 0.6, "computed_mentions": [src]})
     t = {"name": name, "cols": cols, "pk": pk, "uniques": uniques, "checks": checks, "fks": fks, "indexes": indexes,
          "rows": [], "stypes": stypes}
     t["rows"] = gen_rows(rng, t, rng.choice([0, 1, 2, 3, 4, 6] if not big else [0, 3, 8, 20]))
@@ -165,7 +174,9 @@ def gen_rows(rng, t, n):
             in_check = any(c["name"] == k["pred"]["col"] for k in t["checks"] if k["pred"]) or \
                 any(c["name"] in i.get("where_mentions", ()) for i in t["indexes"])
             in_u = any(c["name"] in u for u in ucols)
-            if c["name"] in t.get("stypes", {}):
+            if c.get("computed"):
+                v = None        # not inserted: the database computes it
+            elif c["name"] in t.get("stypes", {}):
                 st = t["stypes"][c["name"]]
                 v = None if (c["nullable"] and rng.random() < 0.25) else ({"i": rng.choice([0, 1])} if st["kind"] == "bool" else {"t": rng.choice(["a", "b"])})
             elif c["name"] == "id" and c["pk"]:
@@ -214,18 +225,27 @@ def gen_ops(rng, t, n=None, wild=0.08):
     has_null = {c["name"]: any(r[idx0[c["name"]]] is None for r in t["rows"]) for c in t["cols"]}
     all_int = {c["name"]: all(r[idx0[c["name"]]] is None or "i" in r[idx0[c["name"]]] for r in t["rows"]) for c in t["cols"]}
     stypes = dict(t.get("stypes", {}))             # current name -> {"kind", "const"} (while the CHECK is still there)
+    gens = {c["name"] for c in t["cols"] if c.get("computed")}     # generated columns (by batch key): kept out of keys/checks
+    overwritten = set()                                             # original columns replaced by an add_column of the same name
+
+    def plain(names):
+        return [x for x in names if key.get(x, x) not in gens]
     n = n or rng.choice([1, 1, 2, 2, 3, 4])
     if stypes and rng.random() < 0.5:
         n = max(n, 2)
     kinds = ["add_column"] * 5 + ["drop_column"] * 3 + ["alter_column"] * 5 + ["add_unique", "add_check", "add_fk",
-             "drop_constraint", "drop_constraint", "create_index", "create_index", "drop_index", "add_pk"]
+             "drop_constraint", "drop_constraint", "create_index", "create_index", "drop_index", "add_pk", "table_comment"]
     added = []
     for _ in range(n):
         k = rng.choice(kinds)
         if k == "add_column" and newc:
             nm = newc.pop(0)
             if rng.random() < 0.02 and len(t["cols"]) > 1:
-                nm = rng.choice([c["name"] for c in t["cols"][1:]])   # the name of an existing column (C10-F2)
+                # the name of an existing column (C10-F2); not a schema-type / generated one (their CHECK / expression stays)
+                cand = [c["name"] for c in t["cols"][1:] if c["name"] not in t.get("stypes", {}) and not c.get("computed")]
+                if cand:
+                    nm = rng.choice(cand)
+                    overwritten.add(nm)
             ty = rng.choice(INTS + STRS + ["FLOAT", "BOOLEAN"])
             nullable = rng.random() < 0.8
             d = rng.choice(DEFAULTS[family(ty)]) if family(ty) in DEFAULTS and (rng.random() < (0.8 if not nullable else 0.2)) else None
@@ -239,6 +259,8 @@ def gen_ops(rng, t, n=None, wild=0.08):
                 o["after"] = rng.choice(pool)
             elif r < 0.55 and len(pool) > 1:
                 o["before"], o["after"] = rng.sample(pool, 2)
+            if rng.random() < 0.03:
+                o["col"]["unique"] = True      # Column(unique=True): the unnamed UniqueConstraint is rejected by add_constraint
             if rng.random() < 0.05 and not any(x["op"] == "add_column" and x["col"].get("index") for x in ops):
                 # one per batch: `table.indexes` is a set, two CREATE INDEX on the temp table come in hash order
                 o["col"]["index"] = True
@@ -251,7 +273,7 @@ def gen_ops(rng, t, n=None, wild=0.08):
             c = rng.choice(cur[1:] if rng.random() < 0.9 else cur)
             # keep one original column: with none left SQLAlchemy cannot compile the INSERT..SELECT (KeyError inside the
             # try; not modelled)
-            if c in key and key[c] in idx0 and sum(1 for x in cur if key.get(x) in idx0) <= 1:
+            if c in key and key[c] in idx0 and sum(1 for x in cur if key.get(x) in idx0 and key.get(x) not in overwritten) <= 1:
                 continue
             if rng.random() < wild:
                 ops.append({"op": "drop_column", "name": "nope"})
@@ -276,16 +298,30 @@ def gen_ops(rng, t, n=None, wild=0.08):
                     o["existing_type_const"], o["existing_type_kind"] = stypes[c]["const"], stypes[c]["kind"]
                 if what == "comment":
                     o["comment"] = "a comment"
+            if key.get(c) in gens and what == "nullable":
+                what = "comment"       # NOT NULL on a generated column depends on the (opaque) expression value: not generated
+                o["comment"] = "generated"
             if "rename" in what:
                 nn = c + "_r"
-                if rng.random() < 0.06 and len(cur) > 1:
-                    nn = rng.choice([x for x in cur if x != c])  # collision
+                others = [x for x in cur if x != c and key.get(x, x) not in t.get("stypes", {})]
+                if rng.random() < 0.06 and others:
+                    # collision with another column's name (not a schema-type column: its CHECK text would then apply to
+                    # this column's values, which the model cannot evaluate)
+                    nn = rng.choice(others)
                 o["new_name"] = nn
             if "type" in what:
                 # the model evaluates CHECKs on integers only: a column some CHECK mentions stays integer typed
                 ty = rng.choice(INTS) if c in checked else rng.choice(TYPE_TOKENS + ["JSON"])
                 o["type"] = {"ty": ty, "aff": aff_of_token(ty)}
                 retyped.add(c)
+            if rng.random() < 0.08:
+                # autoincrement=True is only legal (SQLAlchemy CompileError otherwise) on a single INTEGER primary key column
+                single_int_pk = bool(t["pk"]) and t["pk"]["cols"] == [key.get(c)] and tys.get(c) == "INTEGER" and c not in retyped
+                o["autoincrement"] = single_int_pk and what not in ("type", "rename+type") and rng.random() < 0.5
+            if not o.get("existing_type_const") and c not in stypes and rng.random() < 0.25:
+                # autogenerate-style existing_* arguments of a plain column
+                o["existing_type_plain"] = tys.get(c, "INTEGER")
+                o["existing_nullable"] = rng.random() < 0.5
             if what == "nullable":
                 o["nullable"] = rng.random() < 0.4
             if what == "default":
@@ -305,13 +341,16 @@ def gen_ops(rng, t, n=None, wild=0.08):
                 key[o["new_name"]] = key.pop(c)
                 tys[o["new_name"]] = tys.pop(c, "INTEGER")
         elif k == "add_unique" and cur:
-            cs = rng.sample(cur, min(len(cur), rng.choice([1, 1, 2])))
+            pool_ = plain(cur)
+            if not pool_:
+                continue
+            cs = rng.sample(pool_, min(len(pool_), rng.choice([1, 1, 2])))
             # by batch key (works) or, sometimes, by the current (possibly new) name
             by_new = rng.random() < 0.15
             ops.append({"op": "add_unique", "name": "uq_new%d" % len(ops), "cols": [c if by_new else key[c] for c in cs]})
             consts.append((ops[-1]["name"], "unique"))
         elif k == "add_check" and cur:
-            ic = [c for c in cur if tys.get(c) in INTS and c not in retyped and all_int.get(key.get(c, c), True)]
+            ic = [c for c in plain(cur) if tys.get(c) in INTS and c not in retyped and all_int.get(key.get(c, c), True)]
             if not ic:
                 continue
             c = rng.choice(ic)
@@ -322,13 +361,14 @@ def gen_ops(rng, t, n=None, wild=0.08):
             consts.append((ops[-1]["name"], "check"))
         elif k == "add_fk" and cur:
             c = rng.choice(cur)
-            ops.append({"op": "add_fk", "name": "fk_new%d" % len(ops), "cols": [key[c]],
-                        "rtable": rng.choice(["parent", t["name"]]), "rcols": ["id"]})
+            rt = rng.choice(["parent", t["name"]])
+            ops.append({"op": "add_fk", "name": "fk_new%d" % len(ops), "cols": [key[c]], "rtable": rt,
+                        "rcols": ["code"] if (rt == "parent" and rng.random() < 0.4) else ["id"]})
             consts.append((ops[-1]["name"], "foreignkey"))
         elif k == "add_pk" and cur and rng.random() < 0.5:
             # a NULL in an INTEGER PRIMARY KEY column is replaced by a fresh rowid by SQLite itself: not generated
             # ... and a non-integer value in an INTEGER PRIMARY KEY (rowid alias) is a "datatype mismatch"
-            pc = [c for c in cur if not has_null.get(key.get(c, c), True) and (tys.get(c) not in INTS or all_int.get(key.get(c, c), False))
+            pc = [c for c in plain(cur) if not has_null.get(key.get(c, c), True) and (tys.get(c) not in INTS or all_int.get(key.get(c, c), False))
                   and c not in retyped]
             if not pc:
                 continue
@@ -341,16 +381,21 @@ def gen_ops(rng, t, n=None, wild=0.08):
             elif rng.random() < 0.5:
                 ops.append({"op": "drop_constraint", "name": "no_such", "type": rng.choice(["unique", "check", None])})
         elif k == "create_index" and cur:
-            cs = rng.sample(cur, min(len(cur), rng.choice([1, 1, 2])))
+            pool_ = plain(cur)
+            if not pool_:
+                continue
+            cs = rng.sample(pool_, min(len(pool_), rng.choice([1, 1, 2])))
             by_new = rng.random() < 0.1
             nm = "ix_new%d" % len(ops) if rng.random() < 0.93 or not idxs else rng.choice(idxs)
             o = {"op": "create_index", "name": nm, "cols": [c if by_new else key[c] for c in cs], "unique": rng.random() < 0.25}
-            ic = [c for c in cur if tys.get(c) in INTS and c not in retyped and all_int.get(key.get(c, c), True) and c in key and key[c] == c]
+            ic = [c for c in plain(cur) if tys.get(c) in INTS and c not in retyped and all_int.get(key.get(c, c), True) and c in key and key[c] == c]
             if ic and rng.random() < 0.2:
                 wc = rng.choice(ic)
                 o["where"], o["where_mentions"], o["where_pred"] = "%s > 0" % wc, [wc], {"col": wc, "op": ">", "k": 0}
                 checked.add(wc)
             ops.append(o)
+        elif k == "table_comment" and rng.random() < 0.5:
+            ops.append({"op": "table_comment", "text": rng.choice(["a comment", None])})
         elif k == "drop_index":
             if idxs and rng.random() > wild:
                 ops.append({"op": "drop_index", "name": idxs.pop(rng.randrange(len(idxs)))})
@@ -359,7 +404,40 @@ def gen_ops(rng, t, n=None, wild=0.08):
     return ops
 
 
-PARENT_SQL = ["CREATE TABLE parent (id INTEGER NOT NULL PRIMARY KEY)", "INSERT INTO parent VALUES (1), (2), (3)"]
+PARENT_SQL = ["CREATE TABLE parent (id INTEGER NOT NULL PRIMARY KEY, code INTEGER UNIQUE)",
+              "INSERT INTO parent VALUES (1, 10), (2, 20), (3, 30)"]
+
+
+def gen_partial_reordering(rng, t, ops):
+    """the `partial_reordering` argument: 1-2 tuples over original (and sometimes added / unknown) column names"""
+    names = [c["name"] for c in t["cols"]] + [o["col"]["name"] for o in ops if o["op"] == "add_column"]
+    out = []
+    for _ in range(rng.choice([1, 1, 2])):
+        k = min(len(names), rng.choice([2, 2, 3]))
+        tup = rng.sample(names, k)
+        if rng.random() < 0.1:
+            tup[rng.randrange(len(tup))] = "nope"
+        out.append(tup)
+    return out
+
+
+def ordering_battery(t):
+    """fixed add_column position sequences (every branch of _setup_dependencies_for_add_column)"""
+    first, last = t["cols"][0]["name"], t["cols"][-1]["name"]
+
+    def col(n):
+        return {"name": n, "ty": "INTEGER", "aff": aff_of_token("INTEGER"), "nullable": True, "default": None, "dval": None, "pk": False}
+
+    def add(n, before=None, after=None):
+        return {"op": "add_column", "col": col(n), "before": before, "after": after}
+
+    return [
+        [add("n1"), add("n2", before="n1")],                    # before a column that is also new
+        [add("n1"), add("n2", after="n1")],                     # after a column that is also new
+        [add("n1", before=first), add("n2", after=last)],       # before the first / after the last existing column
+        [add("n1", after=first), add("n2", before=last), add("n3", before="n2", after="n1")],
+        [add("n1", before="nope")], [add("n1", after="nope")],   # unknown anchors: KeyError
+    ]
 
 
 def universe(t, ops):
